@@ -53,6 +53,19 @@ def main(argv):
                         raise
                     r = {"violations": [], "observed": {}, "nontrivial": False,
                          "harness_error": f"{type(e).__name__}: {e}\n{traceback.format_exc()[-1500:]}"}
+                    if not is_env_error(e) and isinstance(e, Exception):
+                        # an exception that escaped from the LIBRARY (deepest frames inside $VERIF_REPO/src) while the harness drove it with an input of the
+                        # property's domain: the function did not return what the property says it returns. (The checks catch the exceptions they
+                        # expect themselves; on the unchanged tree nothing reaches this point.)  Exceptions raised by harness code stay harness errors.
+                        lib = os.path.join(os.environ.get("VERIF_REPO", "/repo"), "src") + os.sep
+                        frames = traceback.extract_tb(e.__traceback__)
+                        in_lib = [f for f in frames if f.filename.startswith(lib) and os.sep + "tests" + os.sep not in f.filename]
+                        if in_lib:
+                            f = in_lib[-1]
+                            r = {"violations": [{"key": f"uncaught-library-exception:{type(e).__name__}",
+                                                 "msg": f"case {case.get('cls')}: {type(e).__name__}: {str(e)[:300]} (raised under {os.path.basename(f.filename)}:{f.lineno} in {f.name})",
+                                                 "detail": {"traceback": traceback.format_exc()[-1500:]}}],
+                                 "observed": {"violations_raised": 1}, "nontrivial": False}
                     if not is_env_error(e) or attempt == 3:
                         break
                     # the host ran out of threads / memory / handles: wait and run the case again from a clean scratch directory
